@@ -87,3 +87,43 @@ def blocksOf (v : Str) (ms : List Mention) : List (Str × Str) := (ms.filter (fu
 def setAll (d : Props) (ps : List (Str × Str)) : Props := ps.foldl (fun d p => dset d p.1 p.2) d
 
 end Verif.C01
+
+/-! ## MRX (round 2) -/
+namespace Verif.C01
+open Verif.Codec Verif.Tables
+
+/-- an EP as MRX gives it back: arguments in `role_priority` order; alignment as (cfrom, cto);
+alignment, surface and base only when `lnk` is on. -/
+def epViewX (o : Opts) (e : EP) : EP :=
+  { e with args := sortArgs e.args, lnk := if o.lnk then .charspan e.lnk.cfrom e.lnk.cto else .unspec,
+           surface := if o.lnk then e.surface else none, base := if o.lnk then e.base else none }
+
+/-- the positions at which the MRX encoder writes a `var` element (and hence may write properties),
+in its traversal order: index, arguments, the `hi` of handle constraints, individual constraints. -/
+def varPositionsX (m : MRS) : List Str :=
+  m.index.toList ++ m.rels.flatMap epVarPos ++ m.hcons.map (·.lhs) ++ m.icons.flatMap (fun c => [c.lhs, c.rhs])
+
+def mentionsX (o : Opts) (m : MRS) : List Mention :=
+  (mentVars (if o.properties then m.vars else []) (varPositionsX m)).1
+
+/-- the MRS object `mrx.decode(mrx.encode(m, properties, lnk))` (claimed by `ofXml_toXml`). -/
+def decodedX (o : Opts) (m : MRS) : MRS :=
+  mkMRS m.top m.index (m.rels.map (epViewX o)) m.hcons m.icons (varsOfMentions (mentionsX o m))
+    (if o.lnk then .charspan m.lnk.cfrom m.lnk.cto else .unspec) (if o.lnk then m.surface else none) m.ident
+
+/-- Expressible in MRX at the tree level: label positions (top, EP labels, `lo` of hcons) have sort
+`h` (MRX writes only their vid); variables lower-case; predicates unchanged by `_strip_predicate`;
+upper-case distinct roles; upper-case property names with lower-case values. -/
+structure ExprX (m : MRS) : Prop where
+  top : ∀ t, m.top = some t → varSort t = ['h']
+  index : ∀ i, m.index = some i → lower i = i
+  labels : ∀ e ∈ m.rels, varSort e.label = ['h']
+  preds : ∀ e ∈ m.rels, stripPred e.pred = e.pred
+  roles : ∀ e ∈ m.rels, ∀ a ∈ e.args, upper a.1 = a.1
+  rolesNodup : ∀ e ∈ m.rels, (e.args.map (·.1)).Nodup
+  vals : ∀ e ∈ m.rels, ∀ a ∈ e.args, a.1 ≠ CARG → lower a.2 = a.2
+  hcons : ∀ c ∈ m.hcons, lower c.lhs = c.lhs ∧ varSort c.rhs = ['h']
+  icons : ∀ c ∈ m.icons, lower c.lhs = c.lhs ∧ lower c.rhs = c.rhs
+  props : ∀ vp ∈ m.vars, ∀ kv ∈ vp.2, upper kv.1 = kv.1 ∧ lower kv.2 = kv.2
+
+end Verif.C01
